@@ -279,6 +279,10 @@ func drawDecls(r *Rng, cfg SpecConfig, p *PkgSpec, pi int) {
 			}
 			nm := name()
 			d := &Decl{Kind: kind, Name: nm, Doc: doc(nm), Tags: drawTags(r, cfg.GenNames, cfg.PDeclTags, cfg.AllowFalse)}
+			if len(d.Tags) > 0 && r.P(0.03) {
+				// an embedded blob in the documentation: one very long comment line, the tags after it
+				d.Doc = append(d.Doc, "blob: "+strings.Repeat("0123456789abcdef", 4200))
+			}
 			if kind == "alias" {
 				if r.P(0.3) {
 					d.Target = Pick(r, []string{"int", "string", "[]byte"})
